@@ -62,6 +62,7 @@ struct Plan : sim::PlanBase {
   uint64_t fault_seed = 0;
   long clock_jump_step = -1;          // at this simulated step every clock jumps by clock_jump
   long clock_jump = 0;
+  long alloc_stride = 0;              // > 0: every alloc_stride-th C++ allocation inside the xtp code is a decision point
   bool enumerate = false;             // thorough: enumerate a kill at every crash point along this plan's schedule
 };
 
@@ -441,6 +442,7 @@ class StubCalc : public xtp::ParallelXJobCalc<std::vector<xtp::Job>> {
   void ParseSpecificOptions(const tools::Property &) override {}
 
   xtp::Job::JobResult EvalJob(const xtp::Topology &, xtp::Job &job, xtp::QMThread &thread) override {
+    sim::Harness harness_scope;
     World &w = *Wd;
     long id = job.getId();
     int j = (int)id - 1;
@@ -473,14 +475,14 @@ class StubCalc : public xtp::ParallelXJobCalc<std::vector<xtp::Job>> {
     ExecRec &rr = w.ps[proc_].results[id];
     if (fail) {
       res.setStatus(xtp::Job::FAILED);
-      res.setError("err_" + r.token);
-      rr.status = "FAILED"; rr.error = "err_" + r.token; rr.has_error = true;
-      if (w.plan->fail_with_output) { res.setOutput("out_" + r.token); rr.output = "out_" + r.token; rr.has_output = true; }
+      res.setError("error_of_execution_" + r.token);
+      rr.status = "FAILED"; rr.error = "error_of_execution_" + r.token; rr.has_error = true;
+      if (w.plan->fail_with_output) { res.setOutput("result_of_execution_" + r.token); rr.output = "result_of_execution_" + r.token; rr.has_output = true; }
       w.counters["fault.job_failure"]++;
     } else {
       res.setStatus(xtp::Job::COMPLETE);
-      res.setOutput("out_" + r.token);
-      rr.status = "COMPLETE"; rr.output = "out_" + r.token; rr.has_output = true;
+      res.setOutput("result_of_execution_" + r.token);
+      rr.status = "COMPLETE"; rr.output = "result_of_execution_" + r.token; rr.has_output = true;
     }
     rr.done = true;
     w.executing[j] = -1;
@@ -498,6 +500,7 @@ alignas(64) char g_fake_topology[1 << 16];
 
 void process_body(int p) {
   World &w = *Wd;
+  sim::Harness *prologue = new sim::Harness();  // harness code until the real calls start
   sim::set_phase(PH_GATE);
   while (!w.gate_open[p]) sim::block_on(sim::K_GATE, p);
   sim::set_phase(PH_INIT);
@@ -528,6 +531,7 @@ void process_body(int p) {
   w.note("start p" + std::to_string(p) + " threads=" + std::to_string(sp.threads) + " cache=" + std::to_string(sp.cache) + " maxjobs=" + std::to_string(sp.maxjobs) +
          (pattern.empty() ? "" : " restart='" + pattern + "'"));
   if (sp.is_restart()) w.counters["probe.restart_process_started"]++;
+  delete prologue;
   try {
     StubCalc calc(p);
     xtp::ProgObserver<std::vector<xtp::Job>> obs;
@@ -547,8 +551,9 @@ void process_body(int p) {
     calc.Initialize(opts);
     const xtp::Topology &top = *reinterpret_cast<const xtp::Topology *>(g_fake_topology);
     calc.EvaluateFrame(top);
-    st.finished = true;
+    { sim::Harness harness_scope; st.finished = true; }
   } catch (const std::exception &e) {
+    sim::Harness harness_scope;
     st.abort_what = e.what();
     st.dead = true;
     w.note("p" + std::to_string(p) + " aborted: " + st.abort_what);
@@ -556,6 +561,7 @@ void process_body(int p) {
     if (w.torn_by < 0) sim::abort_run("process-aborted", "p" + std::to_string(p) + " died of an exception although no injected kill had damaged the job file: " + st.abort_what);
     w.counters["probe.survivor_aborted_on_torn_file"]++;
   }
+  sim::Harness epilogue;
   if (st.finished) w.note("p" + std::to_string(p) + " finished");
 }
 
@@ -578,6 +584,11 @@ struct Jobs {
       for (const char *f : {"jobs.xml", "jobs.xml~", "state.lock"}) unlink((d + "/" + f).c_str());
       rmdir(d.c_str());
     });
+    // warm-up: one fault-free run without allocation points, so that function-local statics of the code under
+    // test, boost and libstdc++ are initialised before any run can pre-empt a task inside such an initialiser
+    Plan w = generate(12345, 0, "quick");
+    w.kills.clear(); w.alloc_stride = 0; w.short_write = w.short_read = 0; w.enumerate = false;
+    (void)execute_one(w, sim::SchedSpec());
   }
 
   static Plan generate(uint64_t seed, long index, const std::string &tier) {
@@ -681,6 +692,7 @@ struct Jobs {
         p.procs.push_back(s);
       }
     }
+    { long strides[8] = {0, 0, 0, 0, 1, 2, 3, 7}; p.alloc_stride = strides[r.below(8)]; }
     p.pick_strategy(r);
     if (tier == "enum") {
       // small fault-free base plans: <= 2 phase-1 processes, <= 4 jobs, a phase-2 sweeper that names the dead
@@ -733,7 +745,7 @@ struct Jobs {
     }
     v.set("kills", ks);
     v.set("short_write", p.short_write).set("short_read", p.short_read).set("fail_rate", p.fail_rate).set("fail_with_output", p.fail_with_output)
-     .set("eval_max", p.eval_max).set("fault_seed", (long long)p.fault_seed).set("clock_jump_step", p.clock_jump_step).set("clock_jump", p.clock_jump).set("enumerate", p.enumerate);
+     .set("eval_max", p.eval_max).set("fault_seed", (long long)p.fault_seed).set("clock_jump_step", p.clock_jump_step).set("clock_jump", p.clock_jump).set("enumerate", p.enumerate).set("alloc_stride", p.alloc_stride);
     return v;
   }
   static Plan from_json(const js::Value &v) {
@@ -758,6 +770,7 @@ struct Jobs {
     p.eval_max = (int)v.num("eval_max", 0); p.fault_seed = (uint64_t)v.num("fault_seed", 0); p.clock_jump_step = (long)v.num("clock_jump_step", -1);
     p.clock_jump = (long)v.num("clock_jump", 0);
     p.enumerate = v.has("enumerate") && v.at("enumerate").b;
+    p.alloc_stride = (long)v.num("alloc_stride", 0);
     return p;
   }
 
@@ -795,6 +808,7 @@ struct Jobs {
     if (p.fail_rate > 0) { Plan q = p; q.fail_rate = 0; out.push_back(q); }
     if (p.clock_jump_step >= 0) { Plan q = p; q.clock_jump_step = -1; out.push_back(q); }
     if (p.eval_max > 0) { Plan q = p; q.eval_max = 0; out.push_back(q); }
+    if (p.alloc_stride > 0) { Plan q = p; q.alloc_stride = 0; out.push_back(q); q = p; q.alloc_stride = p.alloc_stride * 4; out.push_back(q); }
     bool hist = false;
     for (int s : p.init_status) if (s) hist = true;
     if (hist) { Plan q = p; std::fill(q.init_status.begin(), q.init_status.end(), 0); out.push_back(q); }
@@ -880,6 +894,16 @@ struct Jobs {
     std::cout.rdbuf(&nb);
     sim::Result res = sim::run(cfg, [&] {
       sim::set_on_decision([&] { if (states.size() < 200000) states.push_back(sim::abstract_state()); });
+      // allocation points: only in worker threads of the simulated processes while they hold no thread mutex. In
+      // correct code that is the job-operator loop around EvalJob; code that should be inside a critical section but
+      // is not (a missing lockThread_) becomes pre-emptible between its individual allocations.
+      if (plan.alloc_stride > 0)
+        sim::set_alloc_points(plan.alloc_stride, (long)(plan.fault_seed % 1000), [&w] {
+          int sp = sim::self_proc();
+          if (sp < 1) return false;
+          int t = sim::self();
+          return t != w.ps[(size_t)sp - 1].main_task && sim::mutexes_held(t) == 0;
+        });
       sim::set_on_idle([&] { return w.on_idle(); });
       sim::set_on_proc_death([&](int p) {
         if (p == 0) return;           // process 0 is the harness itself (this task)
@@ -1071,6 +1095,7 @@ struct Jobs {
     sim::MutexObs mo = sim::mutex_obs();
     rep.counters["obs.unlock_by_non_owner"] = mo.unlock_by_non_owner;
     rep.counters["obs.destroy_while_locked"] = mo.destroy_while_locked;
+    if (plan.alloc_stride > 0) rep.counters["probe.alloc_points_enabled"] = 1;
     rep.counters[std::string("config.") + (plan.kills.empty() && plan.short_write == 0 && plan.short_read == 0 ? "fault_free" : "fault_injecting")] = 1;
     if (w.max_live >= 2) rep.counters["probe.two_processes_alive"] = 1;
     if (res.max_blocked >= 3) rep.counters["probe.three_tasks_blocked"] = 1;
